@@ -89,12 +89,37 @@ def judge_arb(run, cases, rows):
                         theorem="correspondence Arb.Model ~ internal/k8s/configuration.go (listenerHosts, GetResources)", found_input=False)
 
 
+LISTENER_FIELDS = {16, 17, 18, 19, 20}   # see c03.FIELDS: listener port / addresses of TransportServers and VirtualServers
+
+
+def judge_applied(run, cases, rows3):
+    """the binding that reaches NGINX: the change batches, applied in order, leave every active TransportServer /
+    VirtualServer configured with exactly the port and addresses of its listener (the C03 shadow, restricted to
+    listener bindings and to TransportServer / GlobalConfiguration events)"""
+    from . import c03
+    for c in cases:
+        if c.get("error") or c["id"] not in rows3:
+            continue
+        r = rows3[c["id"]]
+        if r[c03.STEP] == 0:
+            continue
+        ev = c["histories"][0]["events"][r[c03.STEP] - 1]
+        code = r[c03.CODE]
+        if code in LISTENER_FIELDS or (code in (30, 31, 40) and ev["spec"]["kind"] in ("ts", "gc")):
+            run.failing({"kind": "applied-binding", "field": c03.FIELDS.get(code, str(code)), "event_kind": ev["spec"]["kind"]}, [c],
+                        "C02: applying the change batches returned by the real Configuration in order, after step %d of case %d the configuration applied for a "
+                        "TransportServer / VirtualServer is not the binding of its listener in GetResources(): %s (%s)"
+                        % (r[c03.STEP], c["id"], c03.FIELDS.get(code, code), json.dumps(c03.describe(c, r[c03.STEP]))[:500]),
+                        theorem="Arb.Cases.shadow_run")
+
+
 def check(run):
     run.proof_obligations()
     adm = run_admission(run, 600 if run.tier == "quick" else 20000)
     cases = arb.generate(run, 150 if run.tier == "quick" else 3000)
     rows = arb.evaluate(run, cases)
     judge_arb(run, cases, rows)
+    judge_applied(run, cases, arb.evaluate(run, cases, fn="c03_case", tag="arb3"))
     run.sample({"admission_case": adm[0]} if adm else {})
     for c in cases[:1]:
         run.sample(arb.summarize_case(c))
@@ -121,3 +146,8 @@ def replay(run, path):
             r = rows[c["id"]]
             print("replay case %d: mask main=%d final/alts=%d first=%d; listener-owner spec first failing step=%d" % (c["id"], r[MASK], r[MFIN], r[FIRST], r[SP_L]))
     judge_arb(run, cases, rows)
+    rows3 = arb.evaluate(run, cases, fn="c03_case", tag="arb3")
+    for c in cases:
+        if not c.get("error") and c["id"] in rows3:
+            print("replay case %d: applying the change batches in order, first step where the applied binding differs=%d (code %d)" % (c["id"], rows3[c["id"]][3], rows3[c["id"]][4]))
+    judge_applied(run, cases, rows3)
